@@ -20,7 +20,7 @@ func vhBuildC20(g *vhDigits, depth, maxw int, label string, nodes *[]Stack) Stac
 		s = List()
 	}
 	cfg, _ := s.config()
-	cfg.opt = cfgFlag(nondetUint16()) & (parens | negidx | fwdidx)
+	cfg.opt = cfgFlag(nondetUint16()) & (parens | negidx | fwdidx | ronly)
 	// display options must not influence which wrappers are removed
 	switch g.next(4) {
 	case 1:
@@ -216,10 +216,32 @@ func VH_C20_Named(p []int) {
 		root = And().Push("lead", Or().SetParen(pb()).Push(Not().SetParen(pb()).Push(And().SetParen(pb()).Push(Cond("a", Eq, "1"), Cond("b", Ne, "2")))), "tail")
 	case 7: // wrapper chains of length three in the middle of a parent
 		root = Or().Push("l", And().Push(Or().Push(And().Push("x", "y"))), Not().Push(Or().Push(Not().Push("z"))), "r")
+	case 8: // a typed nil pointer as the only child of a wrapper
+		root = And().Push("a", Or().SetParen(pb()).Push((*Stack)(nil)), "b")
+	case 9:
+		root = And().Push(Or().SetParen(pb()).Push((*Condition)(nil)), List().Push((*vhAliasStack)(nil)))
+	case 10: // read-only, mutex-enabled nested nodes
+		ro := func(s Stack) Stack { return s.SetMutex().SetReadOnly(true) }
+		root = And().SetMutex().Push(ro(Or().Push("x", "y")), ro(Or().SetParen(pb()).Push(And().Push("p", "q"))), ro(Not().Push(Or().Push("n"))))
 	}
 	var nodes []Stack
 	vhCollect(root, &nodes)
 	vhCheckReveal(root, nodes)
+	// a second Reveal finds nothing left to do and nothing left locked
+	leaves := vhLeaves(root, nil)
+	root.Reveal()
+	after := vhLeaves(root, nil)
+	verifAssert(len(after) == len(leaves), "second-reveal/leaf-count")
+	if len(after) == len(leaves) {
+		for i := range leaves {
+			verifAssert(vhSame(after[i], leaves[i]), "second-reveal/leaf-sequence")
+		}
+	}
+	for _, n := range nodes {
+		if cfg, _ := n.config(); cfg != nil {
+			verifAssert(cfg.ldr == nil, "second-reveal/lock-released")
+		}
+	}
 }
 
 func vhCheckReveal(root Stack, nodes []Stack) {
